@@ -125,7 +125,7 @@ def impl(case):
 
     def book():
         d = c.__dict__
-        return [list(d['index']), [str(x) for x in d['_attributes']], repr(d['_strict']), len(d), [lc.enc_label(p) for p in d['span']]]
+        return [list(d['index']), [str(x) for x in d['_attributes']], repr(d['_strict']), [lc.enc_label(p) for p in d['span']]]
     book_before = book()
     if kind in ('getn', 'setn'):
         if kind == 'getn':
@@ -439,7 +439,7 @@ def oracle(case, obs):
     exp_after = data
     site = kind
     if not obs.get('book_ok', True):
-        bad(kind, 'bookkeeping-changed', 'the access changed the container\'s own bookkeeping (index / _attributes / _strict / span / __dict__ size)')
+        bad(kind, 'bookkeeping-changed', 'the access changed the container\'s own bookkeeping (index / _attributes / _strict / span)')
     if kind in ('getn', 'setn'):
         # a name that is no variable: KeyError before anything is located or written, whatever the key
         if out != ['raise', 'KeyError']:
